@@ -182,7 +182,14 @@ def coerce_expression(value: Any) -> NixExpression:
             raise ValueError("Unsupported expression type: float must be finite")
         from nix_manipulator.expressions.float import FloatExpression
 
-        return FloatExpression(value=repr(value))
+        text = repr(value)
+        if "e" in text:
+            # Nix float tokens need a decimal point: 1e-07 -> 1.0e-07.
+            mantissa, exponent = text.split("e", 1)
+            if "." not in mantissa:
+                mantissa += ".0"
+            text = f"{mantissa}e{exponent}"
+        return FloatExpression(value=text)
     if isinstance(value, list):
         from nix_manipulator.expressions.list import NixList
 
